@@ -177,7 +177,8 @@ def eval_list_helpers(fns):
 
 def list_helpers(em):
     snippet = lit.table(em, "LIST_HELPER_SNIPPET")
-    names = sorted(set(re.findall(r"\b(__redu_\w+)\s*\(", snippet)))     # every helper the snippet defines or calls (shared inline helpers too)
+    # every helper the list snippet - or the len snippet instantiated with it - defines or calls (shared inline helpers too)
+    names = sorted(set(re.findall(r"\b(__redu_\w+)\s*\(", snippet + "\n" + lit.table(em, "LEN_HELPER_SNIPPET"))))
     drv = ("#include <Arduino.h>\n" + snippet + "\n" + lit.table(em, "LEN_HELPER_SNIPPET") + """
 void use() {
   __redu_list<int> a = __redu_make_list<int>(1, 2, 3);
